@@ -723,6 +723,7 @@ func runC11(c *Ctx) {
 	checkContextCancelledBeforeJoin(c, "R11")
 	checkHandleValidityFromTable(c, "R12")
 	checkStateSlotsServedOnce(c, "R13")
+	checkHandleObjectsClosedOnlyByClose(c, "R15")
 	// R14 (shared with C07.R2): what ends the session is what the sweep reports to the objects still open — a receive
 	// loop that returns something else than the decoding error (nil) leaves them without their transfer-error notice
 	c.withRule("R14", func() { checkBadPacketEndsSession(c) })
@@ -1386,55 +1387,7 @@ func checkStateSlotsServedOnce(c *Ctx, rule string) {
 		c.und(rule, "state slots", p.Pos(stT.Obj().Pos()), fmt.Sprintf("only %d object slots found in state (reader, writer, reader-writer expected)", len(slots)))
 		return
 	}
-	// the state field(s) a value comes from
-	var fieldsOf func(v ssa.Value, depth int) []string
-	fieldsOf = func(v ssa.Value, depth int) []string {
-		if depth > 6 || v == nil {
-			return nil
-		}
-		switch x := v.(type) {
-		case *ssa.UnOp:
-			if x.Op == token.MUL {
-				if t, name, _, ok := fieldOf(x.X); ok && typeName(t) == "state" {
-					return []string{name}
-				}
-			}
-		case *ssa.ChangeInterface:
-			return fieldsOf(x.X, depth+1)
-		case *ssa.MakeInterface:
-			return fieldsOf(x.X, depth+1)
-		case *ssa.TypeAssert:
-			return fieldsOf(x.X, depth+1)
-		case *ssa.Phi:
-			var out []string
-			for _, e := range x.Edges {
-				out = append(out, fieldsOf(e, depth+1)...)
-			}
-			return out
-		case *ssa.Extract:
-			if call, ok := x.Tuple.(*ssa.Call); ok {
-				if callee := call.Call.StaticCallee(); callee != nil && callee.Blocks != nil && inModule(callee) {
-					var out []string
-					for _, rl := range returnLeaves(callee, x.Index) {
-						out = append(out, fieldsOf(rl.v, depth+1)...)
-					}
-					return out
-				}
-			}
-			if ta, ok := x.Tuple.(*ssa.TypeAssert); ok && x.Index == 0 {
-				return fieldsOf(ta.X, depth+1)
-			}
-		case *ssa.Call:
-			if callee := x.Call.StaticCallee(); callee != nil && callee.Blocks != nil && inModule(callee) {
-				var out []string
-				for _, rl := range returnLeaves(callee, 0) {
-					out = append(out, fieldsOf(rl.v, depth+1)...)
-				}
-				return out
-			}
-		}
-		return nil
-	}
+	fieldsOf := stateFieldsOf
 	for _, spec := range []struct{ fn, method, verb string }{
 		{"(*Request).close", "Close", "closed"},
 		{"(*Request).transferError", "TransferError", "notified"},
@@ -1459,4 +1412,83 @@ func checkStateSlotsServedOnce(c *Ctx, rule string) {
 				fmt.Sprintf("the object in state.%s is %s %d times by %s (the accessor hands out another slot in its place, or the same slot twice): a handler object is never %s, another one twice", s, spec.verb, count[s], spec.fn, spec.verb))
 		}
 	}
+}
+
+// stateFieldsOf: the field(s) of a Request's state that a value is loaded from, through the accessors that hand them out.
+func stateFieldsOf(v ssa.Value, depth int) []string {
+fieldsOf := stateFieldsOf
+	if depth > 6 || v == nil {
+		return nil
+	}
+	switch x := v.(type) {
+	case *ssa.UnOp:
+		if x.Op == token.MUL {
+			if t, name, _, ok := fieldOf(x.X); ok && typeName(t) == "state" {
+				return []string{name}
+			}
+		}
+	case *ssa.ChangeInterface:
+		return fieldsOf(x.X, depth+1)
+	case *ssa.MakeInterface:
+		return fieldsOf(x.X, depth+1)
+	case *ssa.TypeAssert:
+		return fieldsOf(x.X, depth+1)
+	case *ssa.Phi:
+		var out []string
+		for _, e := range x.Edges {
+			out = append(out, fieldsOf(e, depth+1)...)
+		}
+		return out
+	case *ssa.Extract:
+		if call, ok := x.Tuple.(*ssa.Call); ok {
+			if callee := call.Call.StaticCallee(); callee != nil && callee.Blocks != nil && inModule(callee) {
+				var out []string
+				for _, rl := range returnLeaves(callee, x.Index) {
+					out = append(out, fieldsOf(rl.v, depth+1)...)
+				}
+				return out
+			}
+		}
+		if ta, ok := x.Tuple.(*ssa.TypeAssert); ok && x.Index == 0 {
+			return fieldsOf(ta.X, depth+1)
+		}
+	case *ssa.Call:
+		if callee := x.Call.StaticCallee(); callee != nil && callee.Blocks != nil && inModule(callee) {
+			var out []string
+			for _, rl := range returnLeaves(callee, 0) {
+				out = append(out, fieldsOf(rl.v, depth+1)...)
+			}
+			return out
+		}
+	}
+	return nil
+}
+
+// checkHandleObjectsClosedOnlyByClose (C11.R15 / C14.R10): an object that sits in a slot of a Request's state — the
+// reader, writer, reader-writer or lister of an open handle — is closed by Request.close (CLOSE, the end sweep, a failed
+// open) and by nobody else.  A wrapper that closes it on its own (at end of file, after a failed write) closes it under
+// the feet of pipelined requests on the same handle, and CLOSE then closes it a second time.
+func checkHandleObjectsClosedOnlyByClose(c *Ctx, rule string) {
+	p := c.P
+	n := 0
+	for _, fn := range p.LibFuncs() {
+		if outermost(fn).Package() != p.Sftp {
+			continue
+		}
+		eachInstr(fn, func(in ssa.Instruction) {
+			cc := callOf(in)
+			if cc == nil || !cc.IsInvoke() || cc.Method.Name() != "Close" {
+				return
+			}
+			fs := stateFieldsOf(cc.Value, 0)
+			if len(fs) == 0 {
+				return
+			}
+			n++
+			host := fnName(outermost(fn))
+			c.check(host == "(*Request).close" || host == "(*state).closeListerAt", rule, "close of the object in state."+fs[0]+" in "+fnName(fn), p.Pos(in.Pos()), "in Request.close / closeListerAt",
+				"the handler object held in a handle (state."+fs[0]+") is closed outside Request.close: requests pipelined on the same handle find it closed, and CLOSE or the end sweep closes it again")
+		})
+	}
+	c.check(n >= 4, rule, "close sites of handle objects", "?", fmt.Sprintf("%d sites", n), fmt.Sprintf("only %d close sites of handle objects found (Request.close closes three slots, closeListerAt the lister)", n))
 }
